@@ -182,11 +182,24 @@ func runC16(r *gen.R, t *gen.Trace, cdc *codec.Codec, d *dumper, n int, corpus, 
 		judge(cl.Name, path, b0, b1, tx0)
 	}
 
-	// BigInt.Unmarshal on its own: decimal text, base-0 aliases, malformed text, range limit
+	runBigText(r, t, n/3)
+
+	// per-class table and concrete examples for the chain-level half of C16
+	writeC16Notes(order, stats, notes, corpus, chain, height)
+}
+
+// runBigText: BigInt.Unmarshal / BigDec.Unmarshal / BigInt.UnmarshalJSON on their own: decimal text
+// of the range boundaries with both signs, base-0 aliases, malformed text, out-of-range text.
+func runBigText(r *gen.R, t *gen.Trace, n int) {
 	alphabet := []byte("0123456789abfxXoOB_+-")
-	for i := 0; i < n/3; i++ {
+	for i := 0; i < n; i++ {
 		var txt string
-		switch r.Intn(5) {
+		switch r.Intn(6) {
+		case 5:
+			txt = bigEdges[r.Intn(len(bigEdges))].String()
+			if r.Chance(1, 6) {
+				txt = strings.TrimPrefix(txt, "-") + fmt.Sprint(r.Intn(10)) // one digit too many
+			}
 		case 0:
 			al := wirerw.BigTextAliases(fmt.Sprint(int64(r.Intn(100000)) - 50000))
 			if len(al) > 0 {
@@ -221,10 +234,29 @@ func runC16(r *gen.R, t *gen.Trace, cdc *codec.Codec, d *dumper, n int, corpus, 
 			}
 			return x.String()
 		})
-		t.Line("bigtext", res != "ERR", "bigtext %s => %s", hexs([]byte(txt)), res)
+		// the other two decoders of the same text must agree with the proto custom type
+		dec := try(func() string {
+			var x sdk.BigDec
+			if len(txt) == 0 {
+				return "NOP"
+			}
+			if err := x.Unmarshal([]byte(txt)); err != nil {
+				return "ERR"
+			}
+			return x.BigInt().String()
+		})
+		js := try(func() string {
+			var x sdk.BigInt
+			if err := x.UnmarshalJSON([]byte("\"" + txt + "\"")); err != nil {
+				return "ERR"
+			}
+			return x.String()
+		})
+		t.Line("bigtext", res != "ERR", "bigtext %s => %s %s %s", hexs([]byte(txt)), res, dec, js)
 	}
+}
 
-	// per-class table and concrete examples for the chain-level half of C16
+func writeC16Notes(order []string, stats map[string]*c16stat, notes, corpus, chain string, height int64) {
 	sort.Strings(order)
 	if notes != "" {
 		var sb strings.Builder
